@@ -8,7 +8,8 @@
  * PSS/OAEP) or against a spec-level model written here (RFC 8017 encodings).
  *
  * Work is split in "units" (key x section x implementation, + keygen units);
- * unit u runs on worker u % nworkers and draws from its own PRNG stream
+ * unit u runs on worker (u + u / nworkers) % nworkers (the rotation spreads the
+ * slow engine's units over all workers) and draws from its own PRNG stream
  * (seed, u), so the cases do not depend on the number of workers.
  *
  *   --seed S --worker I --nworkers N --cases C --tier 0/1 --fixtures DIR
@@ -2027,7 +2028,7 @@ main(int argc, char **argv)
 	qsort(KEYS, (size_t)nkeys, sizeof KEYS[0], keycmp);
 
 #define UNIT_BEGIN(fmt, ...) \
-	do { int mine = (only >= 0) ? (uid == only) : (uid % nworkers == worker); \
+	do { int mine = (only >= 0) ? (uid == only) : ((uid + uid / nworkers) % nworkers == worker); \
 		g_unit = uid; \
 		if (list) printf("unit %d " fmt "\n", uid, __VA_ARGS__); \
 		uid ++; \
